@@ -137,6 +137,14 @@ func (g *c16gen) call() (string, []*G) {
 	case 7:
 		c := []string{"a", "é", "日", "𠀋", " ", "z"}[r.intn(6)]
 		code := int64([]rune(c)[0])
+		if r.coin(0.25) {
+			// not character codes, some of them character codes in their low 32 bits: representation_error
+			bad := []int64{-1, 1114112, 4294967296 + code, 4294967296, 1 << 40, -4294967296 + code}[r.intn(6)]
+			if r.coin(0.5) {
+				return "atom_codes", []*G{g.v(), glist([]*G{gi(97), gi(bad)}, nil)}
+			}
+			return "char_code", []*G{g.v(), gi(bad)}
+		}
 		if r.coin(0.4) {
 			return "char_code", []*G{g.v(), gi(code)}
 		}
@@ -272,9 +280,47 @@ func runC16(outDir string, seed int64, tier string) {
 	for id := 0; id < n; id++ {
 		g := &c16gen{r: r.split()}
 		name, args := g.call()
+		directed := id < 72
+		if directed {
+			// append/3 over first lists of 2-4 elements whose spine runs through bound variables, with the
+			// second list closed, unbound or partial and the third unbound, right or wrong
+			var x []*G
+			for j, l := 0, 2+id%3; j < l; j++ {
+				x = append(x, ga([]string{"a", "b", "c", "d"}[(id+j)%4]))
+			}
+			ys := [][]*G{{ga("y")}, {ga("y"), ga("z")}, {}}[id/3%3]
+			y := glist(ys, nil)
+			if id/9%4 == 3 {
+				y = g.v()
+			}
+			full := glist(append(append([]*G{}, x...), ys...), nil)
+			z := []*G{g.v(), full, glist(x, nil), glist(append(append([]*G{}, x...), ga("q")), nil)}[id/36*2+id%2]
+			name, args = "append", []*G{glist(x, nil), y, z}
+		}
 		goal := gc(name, args...)
 		res := gc("r", args...)
 		q := fmt.Sprintf("%s, R = %s .", goal.text(), res.text())
+		if directed || g.r.coin(0.3) {
+			// proper-list arguments whose spine runs through variables bound before the call
+			var setup, as []string
+			for i, a := range args {
+				es, tail := listParts(a)
+				if a.K == 'c' && a.S == "." && len(es) >= 2 && tail.K == 'a' && tail.S == "[]" {
+					k := 1 + g.r.intn(len(es)-1)
+					setup = append(setup, fmt.Sprintf("Sp%d = %s", i, glist(es[k:], nil).text()))
+					var pre []string
+					for _, e := range es[:k] {
+						pre = append(pre, e.text())
+					}
+					as = append(as, fmt.Sprintf("[%s|Sp%d]", strings.Join(pre, ","), i))
+				} else {
+					as = append(as, a.text())
+				}
+			}
+			if len(setup) > 0 {
+				q = fmt.Sprintf("%s, %s(%s), R = %s .", strings.Join(setup, ", "), quoteAtom(name), strings.Join(as, ", "), res.text())
+			}
+		}
 		if seen[q] {
 			continue
 		}
